@@ -25,7 +25,48 @@ fn networks(cfg: i64) -> Vec<Vec<(&'static str, &'static str, u8)>> {
     }
 }
 
+struct Idle;
+impl glonax::runtime::Service<glonax::runtime::NullConfig> for Idle {
+    fn new(_: glonax::runtime::NullConfig) -> Self { Idle }
+    async fn wait_io_sub(&mut self, _command_tx: glonax::runtime::CommandSender, _signal_rx: glonax::runtime::SignalReceiver) { std::future::pending::<()>().await }
+}
+
+/// cfg 12: the runtime as glonaxd assembles it, in-process, with the termination request arriving DURING start-up:
+/// moment 0 = after the shutdown handler is registered and before any service is scheduled, 1 = between the services,
+/// 2 = after all of them (the ordinary case). Whatever was started must be stopped, the wait must end, nothing may follow.
+fn inproc(c: &[i64]) -> Vec<i64> {
+    let moment = c.get(1).copied().unwrap_or(2);
+    let iface = format!("q{}m{}", std::process::id(), moment);
+    let mut bus = Bus::new(&iface);
+    bus.set_forward(false);
+    let toml_s = format!("interface = \"{}\"\naddress = 39\ndriver = [\n  {{ da = 74, vendor = \"laixer\", product = \"hcu\" }},\n]\n[name]\nmanufacturer_code = 0\nfunction_instance = 2\necu_instance = 1\nfunction = 255\nvehicle_system = 5\nvehicle_system_instance = 5\nindustry_group = 3\n", iface);
+    let Ok(cfg) = toml::from_str::<glonax::service::NetworkConfig>(&toml_s) else { return vec![-2] };
+    let rt = tokio::runtime::Builder::new_current_thread().enable_all().build().unwrap();
+    let done = rt.block_on(async {
+        // the process-wide handler exists before anything is raised (tokio installs it with the first listener)
+        let _guard = tokio::signal::unix::signal(tokio::signal::unix::SignalKind::terminate()).unwrap();
+        let settle = || async { for _ in 0..5 { for _ in 0..50 { tokio::task::yield_now().await; } tokio::time::sleep(Duration::from_millis(2)).await; } };
+        let mut runtime = glonax::Runtime::default();
+        runtime.register_shutdown_signal();
+        settle().await;
+        if moment == 0 { unsafe { libc::raise(libc::SIGTERM); } settle().await; }
+        runtime.schedule_io_sub_service::<Idle, glonax::runtime::NullConfig>(glonax::runtime::NullConfig {});
+        if moment == 1 { unsafe { libc::raise(libc::SIGTERM); } settle().await; }
+        runtime.schedule_net_service::<glonax::service::NetworkAuthority, glonax::service::NetworkConfig>(cfg, Duration::from_millis(10));
+        if moment >= 2 { tokio::time::sleep(Duration::from_millis(40)).await; unsafe { libc::raise(libc::SIGTERM); } }
+        tokio::time::timeout(Duration::from_secs(3), async { runtime.wait_for_shutdown().await; runtime.wait_for_tasks().await; }).await.is_ok()
+    });
+    let frames = bus.pump();
+    let n = frames.iter().filter(|r| { let id = u32::from_le_bytes([r[0], r[1], r[2], r[3]]) & 0x1fffffff;
+        (id >> 8) & 0xffff == (45824 | 74) && r[4] == 5 && r[8..13] == [b'Z', b'C', 0xff, 0xff, 0x01] }).count();
+    std::thread::sleep(Duration::from_millis(50));
+    let late = bus.pump().len() as i64;
+    drop(rt);
+    vec![1, done as i64, 1, n.min(1) as i64, late]
+}
+
 pub fn exec(c: &[i64]) -> Vec<i64> {
+    if c[0] == 12 { let c2 = c.to_vec(); return std::panic::catch_unwind(move || inproc(&c2)).unwrap_or_else(|_| vec![-1]); }
     let (cfg, delay, nclients, burst, sig) = (c[0], c[1] as u64, c[2] as usize, c[3] as usize, c[4] as i32);
     let nets = networks(cfg);
     let tag = format!("{}x{:?}", std::process::id(), std::thread::current().id()).replace(['(', ')', 'T', 'h', 'r', 'e', 'a', 'd', 'I'], "");
@@ -158,6 +199,8 @@ pub fn exec(c: &[i64]) -> Vec<i64> {
 pub fn gen(o: &Opts, sink: &mut dyn FnMut(Vec<i64>, String)) {
     let mut k: u64 = 0;
     let mut rng = Rng::new(o.seed, 16);
+    // the request during start-up (in-process runtime): before any service, between the services, after all of them
+    for moment in [0i64, 1, 2] { k += 1; if mine(o, k) { sink(vec![12, moment], String::new()); } }
     let n = if o.tier_thorough { 300 } else { 30 };
     for j in 0..n {
         k += 1; if !mine(o, k) { continue; }
